@@ -545,7 +545,9 @@ def classify(case, k, row):
     if ln.startswith("api_member ") and f.get("ty") == "ipv":
         m = f.get("member")
         # class: the operation is not in `supports .ipv` (the model says so too) although std::inplace_vector has it
-        if m in ALL_MEMBERS and m not in IPV_MEMBERS and row.model == "has=0" and row.spec == "has=1":
+        # (inplace_vector<T, 0> is an empty class: implicitly assignable, generic etl::swap applies — Tetl.C01.ipvZeroExtra)
+        zero_extra = f.get("cap") == "0" and m in ("copy_assign", "move_assign", "swap_free")
+        if m in ALL_MEMBERS and m not in IPV_MEMBERS and not zero_extra and row.model == "has=0" and row.spec == "has=1":
             return "F-C01-inplace-vector-not-assignable" if m in ("copy_assign", "move_assign") \
                 else "F-C01-inplace-vector-missing-members"
         return None
